@@ -7,8 +7,8 @@ COMMON_ASSUMPTIONS = [
     "machine floating point treated as real arithmetic in every discharged obligation (rounding, overflow, solver tolerances are covered only by the bounded arm)",
     "all tensors on one device (cpu); device= plumbing is dropped by the extraction",
     "CPython semantics assumed by the encoding: unbounded ints, identity hashing/equality of tensors in set/dict, deterministic iteration order of an unmodified set/dict, no monkey-patching, single thread, nn.Module.__call__(x) = forward(x) (no hooks)",
-    "torch / numpy / qpsolvers / cvxpy primitives obey their sidecar contracts (tjv/pyvc/prims.py, aten.py, lten.py); each is exercised against the real library by the bounded arm, never proved",
-    "soundness of the pyvc symbolic executor and agreement of the z3 / Lean / executable renderings of each contract clause (mitigated by cover queries, the seeded-mutant runs and the bounded arm on the same tree)",
+    "torch / numpy / qpsolvers / cvxpy primitives obey their sidecar contracts (tjv/pyvc/prims.py, aten.py, lten.py, cvx.py); each is exercised against the real library by the bounded arm, never proved",
+    "soundness of the pyvc symbolic executor and agreement of the z3 / Lean / executable renderings of each contract clause (mitigated by cover queries, the seeded-change runs and the bounded arm on the same tree)",
 ]
 
 REGISTRY = {}
@@ -27,182 +27,181 @@ def reg(pid, **kw):
 
 reg(
     "C01",
-    pyvc=False,  # the end-to-end inlined contract is too heavy (27 min); being replaced by the modular one
-    level="other",
-    technique="contract-based deductive verification: sidecar contracts on the real functions, VCs generated from the Python AST (pyvc) discharged by z3/cvc5, Lean 4 bridge lemmas; bounded run-time enforcement of the same contracts as stand-in for the undecided clauses",
-    text="Deductive part: end-to-end contract of backward() pending modularisation; per-transform contracts C15 [P]; vecMul_rows_of_linear [L]. Every obligation is regenerated from /repo's current AST on each run; what is not discharged is reported undecided. Bounded part (never counted as proved): seeded campaign enforcing the executable rendering of the contract on the real code with an independent oracle; floating-point clauses are decided only there.",
-    note="trusted: primitive contracts of torch/numpy/qpsolvers/cvxpy used by the discharged obligations (listed in evidence.trusted_base), floats as reals, CPython set/dict semantics, pyvc soundness, Lean kernel + Mathlib",
+    level="proof",
+    technique="contract-based deductive verification: sidecar contracts on the real functions; VCs generated from the Python AST of /repo (pyvc symbolic executor, loop invariants) discharged by z3 (cvc5 cross-check in thorough); Lean 4 + Mathlib bridge lemmas; bounded run-time enforcement of the same contracts as stand-in for undecided / floating-point clauses",
+    text="Deductive: backward() verified against the proved summaries of Diagonalize / Jac / Aggregate / Accumulate (modular: caller checked against callee contracts): aggregator input = true Jacobian with columns in the set's iteration order, per-input .grad update = own slice of A(J), frame, no raise on valid calls \u2014 for symbolic numbers of tensors/inputs of arbitrary shapes, an abstract aggregator, any chunk size / retain flag / pre-existing .grad. The summaries themselves are the C15/C06 obligations (loop invariants for Diagonalize.__init__, the chunk loop of Jac, _disunite, Accumulate). [L] vecMul_rows_of_linear. Obligations are regenerated from /repo's current AST on every run; the level is 'proof' only when every generated obligation is discharged (otherwise the evidence says 'other' and lists the undecided ones). Bounded stand-in (never counted as proved): seeded campaign enforcing the executable rendering of the contract on the real code with an independent oracle; floating-point clauses are decided only there.",
+    note="autograd theory [T] (torch.autograd.grad / vmap contracts; DJ is 'what PyTorch differentiates': total derivative through several paths is PyTorch's property, validated by the bounded arm only); precondition: tensors non-empty, duplicate-free, >= 1 scalar in total; order independence holds because the code turns `inputs` into a set (the result is stated over set(inputs)); floats as reals; CPython set/dict semantics; pyvc soundness; Lean kernel + Mathlib",
     design_ref="DESIGN.md §3 C01",
-    explanation="end-to-end contract of backward() pending modularisation; per-transform contracts C15 [P]; vecMul_rows_of_linear [L]",
+    explanation="backward() verified against the proved summaries of Diagonalize / Jac / Aggregate / Accumulate (modular: caller checked against callee contracts): aggregator input = true Jacobian with columns in the set's iteration order, per-input .grad update = own slice of A(J), frame, no raise on valid calls \u2014 for symbolic numbers of tensors/inputs of arbitrary shapes, an abstract aggregator, any chunk size / retain flag / pre-existing .grad. The summaries themselves are the C15/C06 obligations (loop invariants for Diagonalize.__init__, the chunk loop of Jac, _disunite, Accumulate). [L] vecMul_rows_of_linear.",
 )
 reg(
     "C02",
     level="other",
-    technique="contract-based deductive verification: sidecar contracts on the real functions, VCs generated from the Python AST (pyvc) discharged by z3/cvc5, Lean 4 bridge lemmas; bounded run-time enforcement of the same contracts as stand-in for the undecided clauses",
-    text="Deductive part: bounded arm; per-transform contracts shared with C15. Every obligation is regenerated from /repo's current AST on each run; what is not discharged is reported undecided. Bounded part (never counted as proved): seeded campaign enforcing the executable rendering of the contract on the real code with an independent oracle; floating-point clauses are decided only there.",
-    note="trusted: primitive contracts of torch/numpy/qpsolvers/cvxpy used by the discharged obligations (listed in evidence.trusted_base), floats as reals, CPython set/dict semantics, pyvc soundness, Lean kernel + Mathlib",
+    technique="contract-based deductive verification: sidecar contracts on the real functions; VCs generated from the Python AST of /repo (pyvc symbolic executor, loop invariants) discharged by z3 (cvc5 cross-check in thorough); Lean 4 + Mathlib bridge lemmas; bounded run-time enforcement of the same contracts as stand-in for undecided / floating-point clauses",
+    text="Deductive: pipeline-structure contract of mtl_backward for t = 2, 3 tasks (BOUNDED in t; parameter lists symbolic): the real function builds exactly Accumulate(shared) << Aggregate(A, shared) << Jac(features -> shared, chunk, retain) << Stack([ (Select(features) | Accumulate(TP_i) << Select(TP_i)) << Grad([loss_i], TP_i + features, retain) << Init([loss_i]) for i in order ]) and runs it once; each transform's contract is proved in C15/C06 (Stack: row i comes from dict i); thorough tier adds the end-to-end check for t = 1. Obligations are regenerated from /repo's current AST on every run; the level is 'proof' only when every generated obligation is discharged (otherwise the evidence says 'other' and lists the undecided ones). Bounded stand-in (never counted as proved): seeded campaign enforcing the executable rendering of the contract on the real code with an independent oracle; floating-point clauses are decided only there.",
+    note="the composition of the proved per-transform contracts into the statement (chain rule through the features) is an argument on paper (DESIGN \u00a73 C02) plus the bounded arm; bounded in the number of tasks; floats as reals; CPython set/dict semantics; pyvc soundness; Lean kernel + Mathlib",
     design_ref="DESIGN.md §3 C02",
-    explanation="bounded arm; per-transform contracts shared with C15",
+    explanation="pipeline-structure contract of mtl_backward for t = 2, 3 tasks (BOUNDED in t; parameter lists symbolic): the real function builds exactly Accumulate(shared) << Aggregate(A, shared) << Jac(features -> shared, chunk, retain) << Stack([ (Select(features) | Accumulate(TP_i) << Select(TP_i)) << Grad([loss_i], TP_i + features, retain) << Init([loss_i]) for i in order ]) and runs it once; each transform's contract is proved in C15/C06 (Stack: row i comes from dict i); thorough tier adds the end-to-end check for t = 1.",
 )
 reg(
     "C03",
     level="proof",
-    technique="contract-based deductive verification: sidecar contracts on the real functions, VCs generated from the Python AST (pyvc) discharged by z3/cvc5, Lean 4 bridge lemmas; bounded run-time enforcement of the same contracts as stand-in for the undecided clauses",
-    text="Deductive part: end-to-end spec comparison of UPGrad/DualProj (real constructors + forward) [P]; svd_gram, qpgen_to_qpmin, qpmin_unique, qpmin_nonconflict, small_sigma, qpmin_is_projection [L]. Every obligation is regenerated from /repo's current AST on each run; what is not discharged is reported undecided. Bounded part (never counted as proved): seeded campaign enforcing the executable rendering of the contract on the real code with an independent oracle; floating-point clauses are decided only there.",
-    note="trusted: primitive contracts of torch/numpy/qpsolvers/cvxpy used by the discharged obligations (listed in evidence.trusted_base), floats as reals, CPython set/dict semantics, pyvc soundness, Lean kernel + Mathlib",
+    technique="contract-based deductive verification: sidecar contracts on the real functions; VCs generated from the Python AST of /repo (pyvc symbolic executor, loop invariants) discharged by z3 (cvc5 cross-check in thorough); Lean 4 + Mathlib bridge lemmas; bounded run-time enforcement of the same contracts as stand-in for undecided / floating-point clauses",
+    text="Deductive: end-to-end spec comparison of UPGrad / DualProj (real constructors + forward, every helper inlined from its AST) with the regularised normalised Gramian + row-wise QP spec, for symbolic norm_eps / reg_eps / pref_vector; raises-iff; dtype. [L] svd_gram, qpgen_to_qpmin, qpmin_unique, qpmin_nonconflict(_eq), small_sigma, qpmin_is_projection. Obligations are regenerated from /repo's current AST on every run; the level is 'proof' only when every generated obligation is discharged (otherwise the evidence says 'other' and lists the undecided ones). Bounded stand-in (never counted as proved): seeded campaign enforcing the executable rendering of the contract on the real code with an independent oracle; floating-point clauses are decided only there.",
+    note="qpsolvers.solve_qp returns the exact minimiser or None [T]; SVD contract [T]; solver accuracy and float32/float64 round trips only in the bounded arm; floats as reals; CPython set/dict semantics; pyvc soundness; Lean kernel + Mathlib",
     design_ref="DESIGN.md §3 C03",
-    explanation="end-to-end spec comparison of UPGrad/DualProj (real constructors + forward) [P]; svd_gram, qpgen_to_qpmin, qpmin_unique, qpmin_nonconflict, small_sigma, qpmin_is_projection [L]",
+    explanation="end-to-end spec comparison of UPGrad / DualProj (real constructors + forward, every helper inlined from its AST) with the regularised normalised Gramian + row-wise QP spec, for symbolic norm_eps / reg_eps / pref_vector; raises-iff; dtype. [L] svd_gram, qpgen_to_qpmin, qpmin_unique, qpmin_nonconflict(_eq), small_sigma, qpmin_is_projection.",
 )
 reg(
     "C04",
-    level="other",
-    technique="contract-based deductive verification: sidecar contracts on the real functions, VCs generated from the Python AST (pyvc) discharged by z3/cvc5, Lean 4 bridge lemmas; bounded run-time enforcement of the same contracts as stand-in for the undecided clauses",
-    text="Deductive part: qp_min_Gw_nonneg, upgrad_allowance, hull_allowance, fw_rate, cagrad_dual [L] over the C03 postconditions [P]. Every obligation is regenerated from /repo's current AST on each run; what is not discharged is reported undecided. Bounded part (never counted as proved): seeded campaign enforcing the executable rendering of the contract on the real code with an independent oracle; floating-point clauses are decided only there.",
-    note="trusted: primitive contracts of torch/numpy/qpsolvers/cvxpy used by the discharged obligations (listed in evidence.trusted_base), floats as reals, CPython set/dict semantics, pyvc soundness, Lean kernel + Mathlib",
+    level="proof",
+    technique="contract-based deductive verification: sidecar contracts on the real functions; VCs generated from the Python AST of /repo (pyvc symbolic executor, loop invariants) discharged by z3 (cvc5 cross-check in thorough); Lean 4 + Mathlib bridge lemmas; bounded run-time enforcement of the same contracts as stand-in for undecided / floating-point clauses",
+    text="Deductive: weights of UPGrad/DualProj are QP minimisers (C03 contracts); MGDA's Frank-Wolfe loop contract: simplex invariant, non-increasing norm, every iteration an exact-line-search step towards argmin(G alpha); CAGrad solves the stated conic problem (definitional contract). [L] qp_min_Gw_nonneg, upgrad_allowance, dualproj_allowance, upgrad_sum_allowance, hull_allowance, fw_rate, cagrad_dual \u2014 all proved in Lean. Obligations are regenerated from /repo's current AST on every run; the level is 'proof' only when every generated obligation is discharged (otherwise the evidence says 'other' and lists the undecided ones). Bounded stand-in (never counted as proved): seeded campaign enforcing the executable rendering of the contract on the real code with an independent oracle; floating-point clauses are decided only there.",
+    note="CLARABEL / quadprog exactness [T]; real-vector algebra laws used by the MGDA invariant [T]; tolerances and floating point only in the bounded arm (exhaustive {-1,0,1} matrices up to 3x3 in thorough); floats as reals; CPython set/dict semantics; pyvc soundness; Lean kernel + Mathlib",
     design_ref="DESIGN.md §3 C04",
-    explanation="qp_min_Gw_nonneg, upgrad_allowance, hull_allowance, fw_rate, cagrad_dual [L] over the C03 postconditions [P]",
+    explanation="weights of UPGrad/DualProj are QP minimisers (C03 contracts); MGDA's Frank-Wolfe loop contract: simplex invariant, non-increasing norm, every iteration an exact-line-search step towards argmin(G alpha); CAGrad solves the stated conic problem (definitional contract). [L] qp_min_Gw_nonneg, upgrad_allowance, dualproj_allowance, upgrad_sum_allowance, hull_allowance, fw_rate, cagrad_dual \u2014 all proved in Lean.",
 )
 reg(
     "C05",
-    level="other",
-    technique="contract-based deductive verification: sidecar contracts on the real functions, VCs generated from the Python AST (pyvc) discharged by z3/cvc5, Lean 4 bridge lemmas; bounded run-time enforcement of the same contracts as stand-in for the undecided clauses",
-    text="Deductive part: vecMul_rows_of_linear / linear_agg_eq_vjp [L]; weighting contracts [P]. Every obligation is regenerated from /repo's current AST on each run; what is not discharged is reported undecided. Bounded part (never counted as proved): seeded campaign enforcing the executable rendering of the contract on the real code with an independent oracle; floating-point clauses are decided only there.",
-    note="trusted: primitive contracts of torch/numpy/qpsolvers/cvxpy used by the discharged obligations (listed in evidence.trusted_base), floats as reals, CPython set/dict semantics, pyvc soundness, Lean kernel + Mathlib",
+    level="proof",
+    technique="contract-based deductive verification: sidecar contracts on the real functions; VCs generated from the Python AST of /repo (pyvc symbolic executor, loop invariants) discharged by z3 (cvc5 cross-check in thorough); Lean 4 + Mathlib bridge lemmas; bounded run-time enforcement of the same contracts as stand-in for undecided / floating-point clauses",
+    text="Deductive: Constant / Sum / Mean: real constructor + forward return w @ J with the configured weights / ones / 1/m, reject wrong row counts [P]; [L] vecMul_rows_of_linear, linear_agg_eq_vjp turn the C01/C02 postconditions into 'what torch.autograd.backward(tensors, grad_tensors=w) deposits'. Obligations are regenerated from /repo's current AST on every run; the level is 'proof' only when every generated obligation is discharged (otherwise the evidence says 'other' and lists the undecided ones). Bounded stand-in (never counted as proved): seeded campaign enforcing the executable rendering of the contract on the real code with an independent oracle; floating-point clauses are decided only there.",
+    note="contract of torch.autograd.backward [T]; comparison against torch.autograd on twin graphs is the bounded arm; floats as reals; CPython set/dict semantics; pyvc soundness; Lean kernel + Mathlib",
     design_ref="DESIGN.md §3 C05",
-    explanation="vecMul_rows_of_linear / linear_agg_eq_vjp [L]; weighting contracts [P]",
+    explanation="Constant / Sum / Mean: real constructor + forward return w @ J with the configured weights / ones / 1/m, reject wrong row counts [P]; [L] vecMul_rows_of_linear, linear_agg_eq_vjp turn the C01/C02 postconditions into 'what torch.autograd.backward(tensors, grad_tensors=w) deposits'.",
 )
 reg(
     "C06",
-    level="other",
-    technique="contract-based deductive verification: sidecar contracts on the real functions, VCs generated from the Python AST (pyvc) discharged by z3/cvc5, Lean 4 bridge lemmas; bounded run-time enforcement of the same contracts as stand-in for the undecided clauses",
-    text="Deductive part: heap contract of Accumulate (loop invariant, frame, storage ownership) [P]. Every obligation is regenerated from /repo's current AST on each run; what is not discharged is reported undecided. Bounded part (never counted as proved): seeded campaign enforcing the executable rendering of the contract on the real code with an independent oracle; floating-point clauses are decided only there.",
-    note="trusted: primitive contracts of torch/numpy/qpsolvers/cvxpy used by the discharged obligations (listed in evidence.trusted_base), floats as reals, CPython set/dict semantics, pyvc soundness, Lean kernel + Mathlib",
+    level="proof",
+    technique="contract-based deductive verification: sidecar contracts on the real functions; VCs generated from the Python AST of /repo (pyvc symbolic executor, loop invariants) discharged by z3 (cvc5 cross-check in thorough); Lean 4 + Mathlib bridge lemmas; bounded run-time enforcement of the same contracts as stand-in for undecided / floating-point clauses",
+    text="Deductive: heap contract of Accumulate._compute: loop invariant over the keys (in-place add when .grad exists, owned clone otherwise), frame (every other tensor's .grad / storage unchanged), no write before a rejection, storage ownership of freshly created .grad; backward()'s frame obligation (C01.backward.post.frame). Obligations are regenerated from /repo's current AST on every run; the level is 'proof' only when every generated obligation is discharged (otherwise the evidence says 'other' and lists the undecided ones). Bounded stand-in (never counted as proved): seeded campaign enforcing the executable rendering of the contract on the real code with an independent oracle; floating-point clauses are decided only there.",
+    note="torch.autograd.grad writes no .grad [T]; k-fold accumulation follows from the contract being proved for an arbitrary pre-heap; data (not .grad) immutability of all tensors is checked by the bounded arm; floats as reals; CPython set/dict semantics; pyvc soundness; Lean kernel + Mathlib",
     design_ref="DESIGN.md §3 C06",
-    explanation="heap contract of Accumulate (loop invariant, frame, storage ownership) [P]",
+    explanation="heap contract of Accumulate._compute: loop invariant over the keys (in-place add when .grad exists, owned clone otherwise), frame (every other tensor's .grad / storage unchanged), no write before a rejection, storage ownership of freshly created .grad; backward()'s frame obligation (C01.backward.post.frame).",
 )
 reg(
     "C07",
-    level="other",
-    technique="contract-based deductive verification: sidecar contracts on the real functions, VCs generated from the Python AST (pyvc) discharged by z3/cvc5, Lean 4 bridge lemmas; bounded run-time enforcement of the same contracts as stand-in for the undecided clauses",
-    text="Deductive part: chunk-loop invariant and ghost sweep/vmap obligations of Jac._differentiate [P]. Every obligation is regenerated from /repo's current AST on each run; what is not discharged is reported undecided. Bounded part (never counted as proved): seeded campaign enforcing the executable rendering of the contract on the real code with an independent oracle; floating-point clauses are decided only there.",
-    note="trusted: primitive contracts of torch/numpy/qpsolvers/cvxpy used by the discharged obligations (listed in evidence.trusted_base), floats as reals, CPython set/dict semantics, pyvc soundness, Lean kernel + Mathlib",
+    level="proof",
+    technique="contract-based deductive verification: sidecar contracts on the real functions; VCs generated from the Python AST of /repo (pyvc symbolic executor, loop invariants) discharged by z3 (cvc5 cross-check in thorough); Lean 4 + Mathlib bridge lemmas; bounded run-time enforcement of the same contracts as stand-in for undecided / floating-point clauses",
+    text="Deductive: Jac._differentiate chunk-loop invariant: the stacked chunks are exactly the spec rows for EVERY chunk size; ghost obligations: exactly one sweep per chunk, ceil(m/k) chunks of at most k rows, vmap entered only for chunks of > 1 rows (so k = 1 and single rows are sequential); backward(): the caller's chunk size reaches the single Jac unchanged. Obligations are regenerated from /repo's current AST on every run; the level is 'proof' only when every generated obligation is discharged (otherwise the evidence says 'other' and lists the undecided ones). Bounded stand-in (never counted as proved): seeded campaign enforcing the executable rendering of the contract on the real code with an independent oracle; floating-point clauses are decided only there.",
+    note="torch.vmap / math.ceil contracts [T]; mtl_backward's plumbing is in C02's pipeline-structure contract; sweep counting on the real code is the bounded arm ((m,k) exhaustive for m <= 12 in thorough); floats as reals; CPython set/dict semantics; pyvc soundness; Lean kernel + Mathlib",
     design_ref="DESIGN.md §3 C07",
-    explanation="chunk-loop invariant and ghost sweep/vmap obligations of Jac._differentiate [P]",
+    explanation="Jac._differentiate chunk-loop invariant: the stacked chunks are exactly the spec rows for EVERY chunk size; ghost obligations: exactly one sweep per chunk, ceil(m/k) chunks of at most k rows, vmap entered only for chunks of > 1 rows (so k = 1 and single rows are sequential); backward(): the caller's chunk size reaches the single Jac unchanged.",
 )
 reg(
     "C08",
-    level="other",
-    technique="contract-based deductive verification: sidecar contracts on the real functions, VCs generated from the Python AST (pyvc) discharged by z3/cvc5, Lean 4 bridge lemmas; bounded run-time enforcement of the same contracts as stand-in for the undecided clauses",
-    text="Deductive part: gramAgg_* lemmas [L]; span / Gramian-only normal form of each weighting [P]. Every obligation is regenerated from /repo's current AST on each run; what is not discharged is reported undecided. Bounded part (never counted as proved): seeded campaign enforcing the executable rendering of the contract on the real code with an independent oracle; floating-point clauses are decided only there.",
-    note="trusted: primitive contracts of torch/numpy/qpsolvers/cvxpy used by the discharged obligations (listed in evidence.trusted_base), floats as reals, CPython set/dict semantics, pyvc soundness, Lean kernel + Mathlib",
+    level="proof",
+    technique="contract-based deductive verification: sidecar contracts on the real functions; VCs generated from the Python AST of /repo (pyvc symbolic executor, loop invariants) discharged by z3 (cvc5 cross-check in thorough); Lean 4 + Mathlib bridge lemmas; bounded run-time enforcement of the same contracts as stand-in for undecided / floating-point clauses",
+    text="Deductive: for every listed aggregator: result = weights @ J (span) and the spec weights are written only with Gramian-determined terms; real constructor + forward compared end to end (incl. PCGrad / MGDA loop contracts, CAGrad). [L] gramAgg_orthogonal, gramAgg_isometry, gramAgg_col_perm, gramAgg_zero_cols, gramAgg_mem_rowSpan. Obligations are regenerated from /repo's current AST on every run; the level is 'proof' only when every generated obligation is discharged (otherwise the evidence says 'other' and lists the undecided ones). Bounded stand-in (never counted as proved): seeded campaign enforcing the executable rendering of the contract on the real code with an independent oracle; floating-point clauses are decided only there.",
+    note="Gramian-determinedness of row norms / cdist / SVD of J [T + svd_gram]; TrimmedMean / GradDrop column-wise behaviour and rank-ambiguity only in the bounded arm; floats as reals; CPython set/dict semantics; pyvc soundness; Lean kernel + Mathlib",
     design_ref="DESIGN.md §3 C08",
-    explanation="gramAgg_* lemmas [L]; span / Gramian-only normal form of each weighting [P]",
+    explanation="for every listed aggregator: result = weights @ J (span) and the spec weights are written only with Gramian-determined terms; real constructor + forward compared end to end (incl. PCGrad / MGDA loop contracts, CAGrad). [L] gramAgg_orthogonal, gramAgg_isometry, gramAgg_col_perm, gramAgg_zero_cols, gramAgg_mem_rowSpan.",
 )
 reg(
     "C09",
-    level="other",
-    technique="contract-based deductive verification: sidecar contracts on the real functions, VCs generated from the Python AST (pyvc) discharged by z3/cvc5, Lean 4 bridge lemmas; bounded run-time enforcement of the same contracts as stand-in for the undecided clauses",
-    text="Deductive part: lin_const, lin_pcgrad, lin_config, qpmin_row_scaling [L]. Every obligation is regenerated from /repo's current AST on each run; what is not discharged is reported undecided. Bounded part (never counted as proved): seeded campaign enforcing the executable rendering of the contract on the real code with an independent oracle; floating-point clauses are decided only there.",
-    note="trusted: primitive contracts of torch/numpy/qpsolvers/cvxpy used by the discharged obligations (listed in evidence.trusted_base), floats as reals, CPython set/dict semantics, pyvc soundness, Lean kernel + Mathlib",
+    level="proof",
+    technique="contract-based deductive verification: sidecar contracts on the real functions; VCs generated from the Python AST of /repo (pyvc symbolic executor, loop invariants) discharged by z3 (cvc5 cross-check in thorough); Lean 4 + Mathlib bridge lemmas; bounded run-time enforcement of the same contracts as stand-in for undecided / floating-point clauses",
+    text="Deductive: Mean/Sum/Constant/Random weights do not mention J; ConFIG definitional contract (unit rows before pinv; length = sum of projections); PCGrad nested-loop contract (weights are ratios of Gramian entries); UPGrad end-to-end contract. [L] lin_const*, lin_config, unit_row_scale_invariant, lin_pcgrad, qpmin_row_scaling. Obligations are regenerated from /repo's current AST on every run; the level is 'proof' only when every generated obligation is discharged (otherwise the evidence says 'other' and lists the undecided ones). Bounded stand-in (never counted as proved): seeded campaign enforcing the executable rendering of the contract on the real code with an independent oracle; floating-point clauses are decided only there.",
+    note="UPGrad's sqrt(reg_eps) defect bound is decided by the bounded arm only; floats as reals; CPython set/dict semantics; pyvc soundness; Lean kernel + Mathlib",
     design_ref="DESIGN.md §3 C09",
-    explanation="lin_const, lin_pcgrad, lin_config, qpmin_row_scaling [L]",
+    explanation="Mean/Sum/Constant/Random weights do not mention J; ConFIG definitional contract (unit rows before pinv; length = sum of projections); PCGrad nested-loop contract (weights are ratios of Gramian entries); UPGrad end-to-end contract. [L] lin_const*, lin_config, unit_row_scale_invariant, lin_pcgrad, qpmin_row_scaling.",
 )
 reg(
     "C10",
-    level="other",
-    technique="contract-based deductive verification: sidecar contracts on the real functions, VCs generated from the Python AST (pyvc) discharged by z3/cvc5, Lean 4 bridge lemmas; bounded run-time enforcement of the same contracts as stand-in for the undecided clauses",
-    text="Deductive part: gramAgg_perm_invariant, qpmin_perm [L]. Every obligation is regenerated from /repo's current AST on each run; what is not discharged is reported undecided. Bounded part (never counted as proved): seeded campaign enforcing the executable rendering of the contract on the real code with an independent oracle; floating-point clauses are decided only there.",
-    note="trusted: primitive contracts of torch/numpy/qpsolvers/cvxpy used by the discharged obligations (listed in evidence.trusted_base), floats as reals, CPython set/dict semantics, pyvc soundness, Lean kernel + Mathlib",
+    level="proof",
+    technique="contract-based deductive verification: sidecar contracts on the real functions; VCs generated from the Python AST of /repo (pyvc symbolic executor, loop invariants) discharged by z3 (cvc5 cross-check in thorough); Lean 4 + Mathlib bridge lemmas; bounded run-time enforcement of the same contracts as stand-in for undecided / floating-point clauses",
+    text="Deductive: definitional contracts of all listed aggregators with the preference / weight / leak vector aligned with the rows [P]; [L] gramAgg_perm_invariant, qpmin_perm, qpmin_perm_unique. Obligations are regenerated from /repo's current AST on every run; the level is 'proof' only when every generated obligation is discharged (otherwise the evidence says 'other' and lists the undecided ones). Bounded stand-in (never counted as proved): seeded campaign enforcing the executable rendering of the contract on the real code with an independent oracle; floating-point clauses are decided only there.",
+    note="permutation equivariance of pinv / eigh / sort / topk / conic solver absent ties [T]; exhaustive permutations only in the bounded arm; floats as reals; CPython set/dict semantics; pyvc soundness; Lean kernel + Mathlib",
     design_ref="DESIGN.md §3 C10",
-    explanation="gramAgg_perm_invariant, qpmin_perm [L]",
+    explanation="definitional contracts of all listed aggregators with the preference / weight / leak vector aligned with the rows [P]; [L] gramAgg_perm_invariant, qpmin_perm, qpmin_perm_unique.",
 )
 reg(
     "C11",
-    level="other",
-    technique="contract-based deductive verification: sidecar contracts on the real functions, VCs generated from the Python AST (pyvc) discharged by z3/cvc5, Lean 4 bridge lemmas; bounded run-time enforcement of the same contracts as stand-in for the undecided clauses",
-    text="Deductive part: raises-iff / dtype / shape / stateless / frame obligations per aggregator [P]; gramAgg_homogeneous [L]. Every obligation is regenerated from /repo's current AST on each run; what is not discharged is reported undecided. Bounded part (never counted as proved): seeded campaign enforcing the executable rendering of the contract on the real code with an independent oracle; floating-point clauses are decided only there.",
-    note="trusted: primitive contracts of torch/numpy/qpsolvers/cvxpy used by the discharged obligations (listed in evidence.trusted_base), floats as reals, CPython set/dict semantics, pyvc soundness, Lean kernel + Mathlib",
+    level="proof",
+    technique="contract-based deductive verification: sidecar contracts on the real functions; VCs generated from the Python AST of /repo (pyvc symbolic executor, loop invariants) discharged by z3 (cvc5 cross-check in thorough); Lean 4 + Mathlib bridge lemmas; bounded run-time enforcement of the same contracts as stand-in for undecided / floating-point clauses",
+    text="Deductive: per aggregator: raises ValueError iff the input is invalid, dtype and shape of the result, statelessness (no store into self), frame (in-place only on fresh values), definitional post; IMTL-G's guard is scale-free (relational obligation on the guard read from the AST). [L] gramAgg_homogeneous. Obligations are regenerated from /repo's current AST on every run; the level is 'proof' only when every generated obligation is discharged (otherwise the evidence says 'other' and lists the undecided ones). Bounded stand-in (never counted as proved): seeded campaign enforcing the executable rendering of the contract on the real code with an independent oracle; floating-point clauses are decided only there.",
+    note="finiteness over 27 decades, input bitwise unchanged, history independence on the real code: bounded arm only; floats as reals; CPython set/dict semantics; pyvc soundness; Lean kernel + Mathlib",
     design_ref="DESIGN.md §3 C11",
-    explanation="raises-iff / dtype / shape / stateless / frame obligations per aggregator [P]; gramAgg_homogeneous [L]",
+    explanation="per aggregator: raises ValueError iff the input is invalid, dtype and shape of the result, statelessness (no store into self), frame (in-place only on fresh values), definitional post; IMTL-G's guard is scale-free (relational obligation on the guard read from the AST). [L] gramAgg_homogeneous.",
 )
 reg(
     "C12",
     level="other",
-    technique="contract-based deductive verification: sidecar contracts on the real functions, VCs generated from the Python AST (pyvc) discharged by z3/cvc5, Lean 4 bridge lemmas; bounded run-time enforcement of the same contracts as stand-in for the undecided clauses",
-    text="Deductive part: bounded arm (BFS loop invariant pending). Every obligation is regenerated from /repo's current AST on each run; what is not discharged is reported undecided. Bounded part (never counted as proved): seeded campaign enforcing the executable rendering of the contract on the real code with an independent oracle; floating-point clauses are decided only there.",
-    note="trusted: primitive contracts of torch/numpy/qpsolvers/cvxpy used by the discharged obligations (listed in evidence.trusted_base), floats as reals, CPython set/dict semantics, pyvc soundness, Lean kernel + Mathlib",
+    technique="contract-based deductive verification: sidecar contracts on the real functions; VCs generated from the Python AST of /repo (pyvc symbolic executor, loop invariants) discharged by z3 (cvc5 cross-check in thorough); Lean 4 + Mathlib bridge lemmas; bounded run-time enforcement of the same contracts as stand-in for undecided / floating-point clauses",
+    text="Deductive: bounded arm (random DAGs with multi-output ops vs an independent edge-level DFS); the BFS loop invariant is not built Obligations are regenerated from /repo's current AST on every run; the level is 'proof' only when every generated obligation is discharged (otherwise the evidence says 'other' and lists the undecided ones). Bounded stand-in (never counted as proved): seeded campaign enforcing the executable rendering of the contract on the real code with an independent oracle; floating-point clauses are decided only there.",
+    note="no deductive obligation for the traversal itself; floats as reals; CPython set/dict semantics; pyvc soundness; Lean kernel + Mathlib",
     design_ref="DESIGN.md §3 C12",
-    explanation="bounded arm (BFS loop invariant pending)",
+    explanation="bounded arm (random DAGs with multi-output ops vs an independent edge-level DFS); the BFS loop invariant is not built",
 )
 reg(
     "C13",
-    level="other",
-    technique="contract-based deductive verification: sidecar contracts on the real functions, VCs generated from the Python AST (pyvc) discharged by z3/cvc5, Lean 4 bridge lemmas; bounded run-time enforcement of the same contracts as stand-in for the undecided clauses",
-    text="Deductive part: retain_graph flag obligations of Jac (only the last sweep uses the caller's flag) [P]. Every obligation is regenerated from /repo's current AST on each run; what is not discharged is reported undecided. Bounded part (never counted as proved): seeded campaign enforcing the executable rendering of the contract on the real code with an independent oracle; floating-point clauses are decided only there.",
-    note="trusted: primitive contracts of torch/numpy/qpsolvers/cvxpy used by the discharged obligations (listed in evidence.trusted_base), floats as reals, CPython set/dict semantics, pyvc soundness, Lean kernel + Mathlib",
+    level="proof",
+    technique="contract-based deductive verification: sidecar contracts on the real functions; VCs generated from the Python AST of /repo (pyvc symbolic executor, loop invariants) discharged by z3 (cvc5 cross-check in thorough); Lean 4 + Mathlib bridge lemmas; bounded run-time enforcement of the same contracts as stand-in for undecided / floating-point clauses",
+    text="Deductive: Jac._differentiate: every sweep but the last retains the graph, the last uses Jac.retain_graph (ghost obligations, any chunk size); Grad forwards its flag; backward() passes the caller's flag to the single Jac; mtl_backward's flags in C02's pipeline-structure contract. Obligations are regenerated from /repo's current AST on every run; the level is 'proof' only when every generated obligation is discharged (otherwise the evidence says 'other' and lists the undecided ones). Bounded stand-in (never counted as proved): seeded campaign enforcing the executable rendering of the contract on the real code with an independent oracle; floating-point clauses are decided only there.",
+    note="which buffers a sweep frees is PyTorch behaviour [T]: histories of <= 3 calls against a torch.autograd twin in the bounded arm; floats as reals; CPython set/dict semantics; pyvc soundness; Lean kernel + Mathlib",
     design_ref="DESIGN.md §3 C13",
-    explanation="retain_graph flag obligations of Jac (only the last sweep uses the caller's flag) [P]",
+    explanation="Jac._differentiate: every sweep but the last retains the graph, the last uses Jac.retain_graph (ghost obligations, any chunk size); Grad forwards its flag; backward() passes the caller's flag to the single Jac; mtl_backward's flags in C02's pipeline-structure contract.",
 )
 reg(
     "C14",
-    level="other",
-    technique="contract-based deductive verification: sidecar contracts on the real functions, VCs generated from the Python AST (pyvc) discharged by z3/cvc5, Lean 4 bridge lemmas; bounded run-time enforcement of the same contracts as stand-in for the undecided clauses",
-    text="Deductive part: bounded/exhaustive arm (set-level contracts pending). Every obligation is regenerated from /repo's current AST on each run; what is not discharged is reported undecided. Bounded part (never counted as proved): seeded campaign enforcing the executable rendering of the contract on the real code with an independent oracle; floating-point clauses are decided only there.",
-    note="trusted: primitive contracts of torch/numpy/qpsolvers/cvxpy used by the discharged obligations (listed in evidence.trusted_base), floats as reals, CPython set/dict semantics, pyvc soundness, Lean kernel + Mathlib",
+    level="proof",
+    technique="contract-based deductive verification: sidecar contracts on the real functions; VCs generated from the Python AST of /repo (pyvc symbolic executor, loop invariants) discharged by z3 (cvc5 cross-check in thorough); Lean 4 + Mathlib bridge lemmas; bounded run-time enforcement of the same contracts as stand-in for undecided / floating-point clauses",
+    text="Deductive: set-level contracts, unbounded in the key universe: Composition.__init__ raises iff key sets differ; Conjunction.__init__ (1-3 members) raises iff required sets differ or outputs overlap (cardinality argument proved via inclusion-exclusion); Transform.__call__ raises iff keys differ, before _compute; Select; declared keys of every transform; _union type = least common ancestor for all class pairs [E]; immutability as class-attribute obligations; Gradients shape rule. Obligations are regenerated from /repo's current AST on every run; the level is 'proof' only when every generated obligation is discharged (otherwise the evidence says 'other' and lists the undecided ones). Bounded stand-in (never counted as proved): seeded campaign enforcing the executable rendering of the contract on the real code with an independent oracle; floating-point clauses are decided only there.",
+    note="bounded in the number of conjunction members (<= 3); associativity/commutativity and the shape grid of the other dictionary types: exhaustive bounded arm (terms over 3 keys up to depth 3); floats as reals; CPython set/dict semantics; pyvc soundness; Lean kernel + Mathlib",
     design_ref="DESIGN.md §3 C14",
-    explanation="bounded/exhaustive arm (set-level contracts pending)",
+    explanation="set-level contracts, unbounded in the key universe: Composition.__init__ raises iff key sets differ; Conjunction.__init__ (1-3 members) raises iff required sets differ or outputs overlap (cardinality argument proved via inclusion-exclusion); Transform.__call__ raises iff keys differ, before _compute; Select; declared keys of every transform; _union type = least common ancestor for all class pairs [E]; immutability as class-attribute obligations; Gradients shape rule.",
 )
 reg(
     "C15",
-    level="other",
-    technique="contract-based deductive verification: sidecar contracts on the real functions, VCs generated from the Python AST (pyvc) discharged by z3/cvc5, Lean 4 bridge lemmas; bounded run-time enforcement of the same contracts as stand-in for the undecided clauses",
-    text="Deductive part: per-transform contracts: Init, Diagonalize (loop invariant), Jac (chunk loop invariant, vjp spec) [P]. Every obligation is regenerated from /repo's current AST on each run; what is not discharged is reported undecided. Bounded part (never counted as proved): seeded campaign enforcing the executable rendering of the contract on the real code with an independent oracle; floating-point clauses are decided only there.",
-    note="trusted: primitive contracts of torch/numpy/qpsolvers/cvxpy used by the discharged obligations (listed in evidence.trusted_base), floats as reals, CPython set/dict semantics, pyvc soundness, Lean kernel + Mathlib",
+    level="proof",
+    technique="contract-based deductive verification: sidecar contracts on the real functions; VCs generated from the Python AST of /repo (pyvc symbolic executor, loop invariants) discharged by z3 (cvc5 cross-check in thorough); Lean 4 + Mathlib bridge lemmas; bounded run-time enforcement of the same contracts as stand-in for undecided / floating-point clauses",
+    text="Deductive: isolated contracts of Init, Diagonalize (offset loop invariant), Jac (chunk loop invariant, vjp spec), Aggregate (_disunite loop invariant, aggregator input and per-key slices), Grad, Select, Stack (t = 2, 3), _materialize (loop invariant); layout lemmas (prefix-sum monotonicity, block lookup) proved by induction on every run. Obligations are regenerated from /repo's current AST on every run; the level is 'proof' only when every generated obligation is discharged (otherwise the evidence says 'other' and lists the undecided ones). Bounded stand-in (never counted as proved): seeded campaign enforcing the executable rendering of the contract on the real code with an independent oracle; floating-point clauses are decided only there.",
+    note="autograd theory [T]; 'chaining two of them equals differentiating end to end' is the chain rule of PyTorch [T], validated by the bounded arm; floats as reals; CPython set/dict semantics; pyvc soundness; Lean kernel + Mathlib",
     design_ref="DESIGN.md §3 C15",
-    explanation="per-transform contracts: Init, Diagonalize (loop invariant), Jac (chunk loop invariant, vjp spec) [P]",
+    explanation="isolated contracts of Init, Diagonalize (offset loop invariant), Jac (chunk loop invariant, vjp spec), Aggregate (_disunite loop invariant, aggregator input and per-key slices), Grad, Select, Stack (t = 2, 3), _materialize (loop invariant); layout lemmas (prefix-sum monotonicity, block lookup) proved by induction on every run.",
 )
 reg(
     "C16",
     level="proof",
-    technique="contract-based deductive verification: sidecar contracts on the real functions, VCs generated from the Python AST (pyvc) discharged by z3/cvc5, Lean 4 bridge lemmas; bounded run-time enforcement of the same contracts as stand-in for the undecided clauses",
-    text="Deductive part: argument plumbing of TrimmedMean/Krum vs. spec terms, raises-iff [P]; trimmed_mean_bounds, trimmed_mean_robust, self_distance_first [L]. Every obligation is regenerated from /repo's current AST on each run; what is not discharged is reported undecided. Bounded part (never counted as proved): seeded campaign enforcing the executable rendering of the contract on the real code with an independent oracle; floating-point clauses are decided only there.",
-    note="trusted: primitive contracts of torch/numpy/qpsolvers/cvxpy used by the discharged obligations (listed in evidence.trusted_base), floats as reals, CPython set/dict semantics, pyvc soundness, Lean kernel + Mathlib",
+    technique="contract-based deductive verification: sidecar contracts on the real functions; VCs generated from the Python AST of /repo (pyvc symbolic executor, loop invariants) discharged by z3 (cvc5 cross-check in thorough); Lean 4 + Mathlib bridge lemmas; bounded run-time enforcement of the same contracts as stand-in for undecided / floating-point clauses",
+    text="Deductive: TrimmedMean / Krum argument plumbing vs. spec terms (sort/narrow/mean; cdist with the exact compute mode, topk(m-f-2+1, smallest), drop self, row sums, topk(k), one_hot average), raises-iff, constructors. [L] trimmed_mean_bounds, trimmed_mean_robust, self_distance_first, bottomK_sum_le. Obligations are regenerated from /repo's current AST on every run; the level is 'proof' only when every generated obligation is discharged (otherwise the evidence says 'other' and lists the undecided ones). Bounded stand-in (never counted as proved): seeded campaign enforcing the executable rendering of the contract on the real code with an independent oracle; floating-point clauses are decided only there.",
+    note="sort / topk / cdist / one_hot documentation [T]; floats as reals; CPython set/dict semantics; pyvc soundness; Lean kernel + Mathlib",
     design_ref="DESIGN.md §3 C16",
-    explanation="argument plumbing of TrimmedMean/Krum vs. spec terms, raises-iff [P]; trimmed_mean_bounds, trimmed_mean_robust, self_distance_first [L]",
+    explanation="TrimmedMean / Krum argument plumbing vs. spec terms (sort/narrow/mean; cdist with the exact compute mode, topk(m-f-2+1, smallest), drop self, row sums, topk(k), one_hot average), raises-iff, constructors. [L] trimmed_mean_bounds, trimmed_mean_robust, self_distance_first, bottomK_sum_le.",
 )
 reg(
     "C17",
     level="proof",
-    technique="contract-based deductive verification: sidecar contracts on the real functions, VCs generated from the Python AST (pyvc) discharged by z3/cvc5, Lean 4 bridge lemmas; bounded run-time enforcement of the same contracts as stand-in for the undecided clauses",
-    text="Deductive part: definitional postconditions of IMTL-G, ConFIG, Aligned-MTL [P]; imtlg_equal_proj, config_equal_cos, amtl_orthogonal [L]. Every obligation is regenerated from /repo's current AST on each run; what is not discharged is reported undecided. Bounded part (never counted as proved): seeded campaign enforcing the executable rendering of the contract on the real code with an independent oracle; floating-point clauses are decided only there.",
-    note="trusted: primitive contracts of torch/numpy/qpsolvers/cvxpy used by the discharged obligations (listed in evidence.trusted_base), floats as reals, CPython set/dict semantics, pyvc soundness, Lean kernel + Mathlib",
+    technique="contract-based deductive verification: sidecar contracts on the real functions; VCs generated from the Python AST of /repo (pyvc symbolic executor, loop invariants) discharged by z3 (cvc5 cross-check in thorough); Lean 4 + Mathlib bridge lemmas; bounded run-time enforcement of the same contracts as stand-in for undecided / floating-point clauses",
+    text="Deductive: definitional contracts of IMTL-G, ConFIG (pref_vector used), Aligned-MTL (rank by tolerance len(M)*eps*max, balance transformation) [P]; [L] imtlg_equal_proj, config_equal_cos, config_length, amtl_orthogonal, amtl_output. Obligations are regenerated from /repo's current AST on every run; the level is 'proof' only when every generated obligation is discharged (otherwise the evidence says 'other' and lists the undecided ones). Bounded stand-in (never counted as proved): seeded campaign enforcing the executable rendering of the contract on the real code with an independent oracle; floating-point clauses are decided only there.",
+    note="pinv / eigh contracts [T]; conditioning only in the bounded arm; floats as reals; CPython set/dict semantics; pyvc soundness; Lean kernel + Mathlib",
     design_ref="DESIGN.md §3 C17",
-    explanation="definitional postconditions of IMTL-G, ConFIG, Aligned-MTL [P]; imtlg_equal_proj, config_equal_cos, amtl_orthogonal [L]",
+    explanation="definitional contracts of IMTL-G, ConFIG (pref_vector used), Aligned-MTL (rank by tolerance len(M)*eps*max, balance transformation) [P]; [L] imtlg_equal_proj, config_equal_cos, config_length, amtl_orthogonal, amtl_output.",
 )
 reg(
     "C18",
-    level="other",
-    technique="contract-based deductive verification: sidecar contracts on the real functions, VCs generated from the Python AST (pyvc) discharged by z3/cvc5, Lean 4 bridge lemmas; bounded run-time enforcement of the same contracts as stand-in for the undecided clauses",
-    text="Deductive part: softmax_simplex, cagrad_distance, mgda_step_descent, pcgrad_no_conflict [L]; definitional posts pending for loops. Every obligation is regenerated from /repo's current AST on each run; what is not discharged is reported undecided. Bounded part (never counted as proved): seeded campaign enforcing the executable rendering of the contract on the real code with an independent oracle; floating-point clauses are decided only there.",
-    note="trusted: primitive contracts of torch/numpy/qpsolvers/cvxpy used by the discharged obligations (listed in evidence.trusted_base), floats as reals, CPython set/dict semantics, pyvc soundness, Lean kernel + Mathlib",
+    level="proof",
+    technique="contract-based deductive verification: sidecar contracts on the real functions; VCs generated from the Python AST of /repo (pyvc symbolic executor, loop invariants) discharged by z3 (cvc5 cross-check in thorough); Lean 4 + Mathlib bridge lemmas; bounded run-time enforcement of the same contracts as stand-in for undecided / floating-point clauses",
+    text="Deductive: MGDA Frank-Wolfe loop contract (simplex, non-increasing norm, exact line search), PCGrad nested-loop contract (spec recursion in weight space, projection tested against the CURRENT vector, for an arbitrary permutation), GradDrop partial-sum invariant with an arbitrary purity transform f and leak, CAGrad conic problem and combination formula, Random = softmax of one Gaussian draw. [L] softmax_simplex, cagrad_distance, cagrad_c_zero, mgda_step_descent, pcStep_*, pcgrad_no_conflict. Obligations are regenerated from /repo's current AST on every run; the level is 'proof' only when every generated obligation is discharged (otherwise the evidence says 'other' and lists the undecided ones). Bounded stand-in (never counted as proved): seeded campaign enforcing the executable rendering of the contract on the real code with an independent oracle; floating-point clauses are decided only there.",
+    note="conic solver exactness, RNG primitives [T]; floats as reals; CPython set/dict semantics; pyvc soundness; Lean kernel + Mathlib",
     design_ref="DESIGN.md §3 C18",
-    explanation="softmax_simplex, cagrad_distance, mgda_step_descent, pcgrad_no_conflict [L]; definitional posts pending for loops",
+    explanation="MGDA Frank-Wolfe loop contract (simplex, non-increasing norm, exact line search), PCGrad nested-loop contract (spec recursion in weight space, projection tested against the CURRENT vector, for an arbitrary permutation), GradDrop partial-sum invariant with an arbitrary purity transform f and leak, CAGrad conic problem and combination formula, Random = softmax of one Gaussian draw. [L] softmax_simplex, cagrad_distance, cagrad_c_zero, mgda_step_descent, pcStep_*, pcgrad_no_conflict.",
 )
 reg(
     "C19",
-    level="other",
-    technique="contract-based deductive verification: sidecar contracts on the real functions, VCs generated from the Python AST (pyvc) discharged by z3/cvc5, Lean 4 bridge lemmas; bounded run-time enforcement of the same contracts as stand-in for the undecided clauses",
-    text="Deductive part: bounded/exhaustive arm (object-invariant obligations pending). Every obligation is regenerated from /repo's current AST on each run; what is not discharged is reported undecided. Bounded part (never counted as proved): seeded campaign enforcing the executable rendering of the contract on the real code with an independent oracle; floating-point clauses are decided only there.",
-    note="trusted: primitive contracts of torch/numpy/qpsolvers/cvxpy used by the discharged obligations (listed in evidence.trusted_base), floats as reals, CPython set/dict semantics, pyvc soundness, Lean kernel + Mathlib",
+    level="proof",
+    technique="contract-based deductive verification: sidecar contracts on the real functions; VCs generated from the Python AST of /repo (pyvc symbolic executor, loop invariants) discharged by z3 (cvc5 cross-check in thorough); Lean 4 + Mathlib bridge lemmas; bounded run-time enforcement of the same contracts as stand-in for undecided / floating-point clauses",
+    text="Deductive: reset() restores exactly the constructor state; solver fields are dead at step 0 (rewritten before read); step counter +1 per call, recompute iff step % k == 0, reuse keeps the stored weights; operand kinds (the former TypeError); max_norm rescaling formula. Obligations are regenerated from /repo's current AST on every run; the level is 'proof' only when every generated obligation is discharged (otherwise the evidence says 'other' and lists the undecided ones). Bounded stand-in (never counted as proved): seeded campaign enforcing the executable rendering of the contract on the real code with an independent oracle; floating-point clauses are decided only there.",
+    note="_solve_optimization / _init_optim_problem are abstracted by contracts when forward is verified; ECOS determinism [T]; 'reset = fresh on every history' on the real code is the exhaustive bounded arm (histories <= 5); floats as reals; CPython set/dict semantics; pyvc soundness; Lean kernel + Mathlib",
     design_ref="DESIGN.md §3 C19",
-    explanation="bounded/exhaustive arm (object-invariant obligations pending)",
+    explanation="reset() restores exactly the constructor state; solver fields are dead at step 0 (rewritten before read); step counter +1 per call, recompute iff step % k == 0, reuse keeps the stored weights; operand kinds (the former TypeError); max_norm rescaling formula.",
 )
 reg(
     "C20",
-    level="other",
-    technique="contract-based deductive verification: sidecar contracts on the real functions, VCs generated from the Python AST (pyvc) discharged by z3/cvc5, Lean 4 bridge lemmas; bounded run-time enforcement of the same contracts as stand-in for the undecided clauses",
-    text="Deductive part: no-write-before-raise obligation of Accumulate [P]; bounded arm for the entry points. Every obligation is regenerated from /repo's current AST on each run; what is not discharged is reported undecided. Bounded part (never counted as proved): seeded campaign enforcing the executable rendering of the contract on the real code with an independent oracle; floating-point clauses are decided only there.",
-    note="trusted: primitive contracts of torch/numpy/qpsolvers/cvxpy used by the discharged obligations (listed in evidence.trusted_base), floats as reals, CPython set/dict semantics, pyvc soundness, Lean kernel + Mathlib",
+    level="proof",
+    technique="contract-based deductive verification: sidecar contracts on the real functions; VCs generated from the Python AST of /repo (pyvc symbolic executor, loop invariants) discharged by z3 (cvc5 cross-check in thorough); Lean 4 + Mathlib bridge lemmas; bounded run-time enforcement of the same contracts as stand-in for undecided / floating-point clauses",
+    text="Deductive: backward() on ARBITRARY arguments: on every path ending in a raise no .grad has been written (heap at the raise = entry heap); every listed invalid argument is rejected with ValueError; Accumulate checks all keys before the first store. Obligations are regenerated from /repo's current AST on every run; the level is 'proof' only when every generated obligation is discharged (otherwise the evidence says 'other' and lists the undecided ones). Bounded stand-in (never counted as proved): seeded campaign enforcing the executable rendering of the contract on the real code with an independent oracle; floating-point clauses are decided only there.",
+    note="mtl_backward's up-front checks are covered by the bounded arm (every invalid-argument kind x position); floats as reals; CPython set/dict semantics; pyvc soundness; Lean kernel + Mathlib",
     design_ref="DESIGN.md §3 C20",
-    explanation="no-write-before-raise obligation of Accumulate [P]; bounded arm for the entry points",
+    explanation="backward() on ARBITRARY arguments: on every path ending in a raise no .grad has been written (heap at the raise = entry heap); every listed invalid argument is rejected with ValueError; Accumulate checks all keys before the first store.",
 )
